@@ -24,6 +24,88 @@ pub const LEX: &[&str] = &[
     "]", "=>", "==", "&&", "-", "+", "!", "??", "~=", "//", "<", "#!d\n", "@",
 ];
 
+/// text-bearing positions (§ = payload) of the "text" part
+pub const TEXT_CARRIERS: &[&str] = &[
+    "from s\"§\"",
+    "from t | join (s\"§\") (==a)",
+    "let x = s\"§\"\nfrom x | select {a}",
+    "from t | append (s\"§\")",
+    "from t | select {x = s\"§\"}",
+    "from t | select {x = s\"{a}§{b}\"}",
+    "from t | select {x = f\"§\"}",
+    "from t | select {x = f\"{a}§\"}",
+    "from t | select {x = \"§\"}",
+    "from t | select {x = '§'}",
+    "from t | select {x = r\"§\"}",
+    "from t | select {x = \"\"\"§\"\"\"}",
+    "from t | select {`§`}",
+    "from `§`",
+    "from `§.§`",
+    "from t | select {a} # §",
+    "#! §\nfrom t",
+    "from t | filter b ~= \"§\"",
+    "from t | select {x = (b | text.contains \"§\")}",
+    "from t | select {x = (b | text.replace \"§\" \"§\")}",
+    "from t | select {x = (d | date.to_text \"§\")}",
+    "from t | select {x = (b | in [\"§\"])}",
+    "from t | select {x = case [b == \"§\" => \"§\"]}",
+    "from [{a = \"§\"}]",
+    "from t | select {§ = 1}",
+    "from t | select {§}",
+    "from §",
+    "§",
+    "prql target:sql.§\nfrom t",
+    "prql target:\"§\"\nfrom t",
+    "let f = func p1 -> s\"§{p1}\"\nfrom t | select {x = f a}",
+    "from t | sort {s\"§\"} | take 1",
+    "from t | group {s\"§\"} (aggregate {n = count this})",
+    "from t | select {x = @§}",
+    "from t | select {x = 1§}",
+    "from t | select {x = $§}",
+];
+
+/// numeric positions (§ = value) of the "numbers" part
+pub const NUM_CARRIERS: &[&str] = &[
+    "from t | take §",
+    "from t | take §..",
+    "from t | take ..§",
+    "from t | take §..§",
+    "from t | take § | take §..",
+    "from t | take §.. | take §..",
+    "from t | take ..§ | take §..",
+    "from t | take 2..5 | take §..§",
+    "from t | sort a | take §..§ | take 2..3",
+    "from t | group a (take §..§)",
+    "from t | group a (sort b | take §..)",
+    "from t | select {x = a + §}",
+    "from t | select {x = § + §}",
+    "from t | select {x = § * §}",
+    "from t | select {x = § - §}",
+    "from t | select {x = § // §}",
+    "from t | select {x = § % §}",
+    "from t | select {x = § ** §}",
+    "from t | select {x = -§}",
+    "from t | filter (a | in §..§)",
+    "from t | window rows:§..§ (derive s = sum a)",
+    "from t | window range:§..§ (sort a | derive s = sum a)",
+    "from t | window rolling:§ (derive s = sum a)",
+    "from t | window expanding:true rows:§..§ (derive s = sum a)",
+    "from t | derive {l = lag § a, e = lead § a}",
+    "from t | select {x = math.round § a}",
+    "from t | select {x = math.pow § §}",
+    "from t | select {x = (b | text.extract § §)}",
+    "from t | select {x = @2020-01-01 + §days}",
+    "from t | select {x = §years}",
+    "from t | select {x = §microseconds + §weeks}",
+    "from [{a = §}, {a = §}]",
+    "from t | select {x = (§ | as int), y = (§ | as float)}",
+    "from t | select {x = case [a == § => §]}",
+    "from t | loop (filter a < § | select {a = a + §})",
+    "let f = func p1 p2:§ -> p1 + p2\nfrom t | select {x = f §}",
+    "from t | sort {§} | take §",
+    "from t | select {x = $§}",
+];
+
 /// the first LEX_CORE items of LEX form the core alphabet used for the longest sequences
 const LEX_CORE: usize = 32;
 
@@ -42,7 +124,7 @@ pub fn panic_key(p: &PanicInfo) -> String {
         m.entry(p.site.clone())
             .or_insert_with(|| {
                 let n: usize = line.parse().unwrap_or(0);
-                let path = if file.starts_with('/') { file.to_string() } else { format!("/repo/{file}") };
+                let path = if file.starts_with('/') { file.to_string() } else { format!("{}/{file}", crate::report::repo_root()) };
                 std::fs::read_to_string(&path)
                     .ok()
                     .and_then(|t| t.lines().nth(n.saturating_sub(1)).map(|l| l.trim().to_string()))
@@ -302,6 +384,54 @@ pub fn for_each_case(part: &str, tier: Tier, mut f: impl FnMut(u64, Case) -> boo
                     for r in repl {
                         if *r != &src[a..b] && !emit(Case::Src(format!("{}{}{}", &src[..a], r, &src[b..]))) {
                             return;
+                        }
+                    }
+                }
+            }
+        }
+        "text" => {
+            // every text-bearing position of the language × payloads that put a multi-byte character at every
+            // byte offset 0..=12 (after an ASCII prefix that does / does not spell a SQL keyword)
+            let chars: &[&str] = tier.pick(&["é", "テ", "😀"], &["é", "テ", "😀", "\u{301}", "\u{feff}", "ß", "İ"]);
+            let mut prefixes: Vec<String> = vec![];
+            for base in ["SELECT a, b FROM t", "  abcdefghijkl", "select\t"] {
+                for k in 0..=base.len().min(13) {
+                    prefixes.push(base[..k].to_string());
+                }
+            }
+            let suffixes: &[&str] = tier.pick(&["", " a"], &["", " a", "テ", "\n"]);
+            for carrier in TEXT_CARRIERS {
+                for pre in &prefixes {
+                    for ch in chars {
+                        for suf in suffixes {
+                            if !emit(Case::Src(carrier.replace('§', &format!("{pre}{ch}{suf}")))) {
+                                return;
+                            }
+                        }
+                    }
+                }
+            }
+        }
+        "numbers" => {
+            // every numeric position × boundary values (one or two slots per carrier)
+            let vals: &[&str] = tier.pick(
+                &["0", "1", "-1", "65536", "4294967296", "9223372036854775807", "-9223372036854775808", "9223372036854775808", "1e309", "0.5"],
+                &["0", "1", "-1", "2", "255", "256", "65535", "65536", "2147483647", "2147483648", "4294967295", "4294967296", "9223372036854775806", "9223372036854775807", "-9223372036854775807", "-9223372036854775808", "9223372036854775808", "18446744073709551615", "18446744073709551616", "1e308", "1e309", "-1e309", "0.5", "00", "1_000", "0x7fffffffffffffff", "0xffffffffffffffff", "0b1", "0o7"],
+            );
+            for carrier in NUM_CARRIERS {
+                let slots = carrier.matches('§').count();
+                if slots == 1 {
+                    for v in vals {
+                        if !emit(Case::Src(carrier.replace('§', v))) {
+                            return;
+                        }
+                    }
+                } else {
+                    for v in vals {
+                        for w in vals {
+                            if !emit(Case::Src(carrier.replacen('§', v, 1).replacen('§', w, 1))) {
+                                return;
+                            }
                         }
                     }
                 }
@@ -740,7 +870,7 @@ fn sweep(part: &str, tier: Tier) -> SweepOut {
 
 pub fn run(tier: Tier) -> i32 {
     let mut run = Run::new("C12", tier);
-    let parts: &[&str] = &["tokens", "edits", "json"];
+    let parts: &[&str] = &["tokens", "text", "numbers", "edits", "json"];
     for part in parts {
         let s = sweep(part, tier);
         run.count(&format!("{part}:cases"), s.cases);
@@ -875,7 +1005,7 @@ pub fn run(tier: Tier) -> i32 {
     run.set("growth_families", json!(fam_table));
     run.transitions = run.states;
     run.set("bounds", json!({"token_alphabet": LEX.len(), "token_sequences": tier.pick("len<=2 over 59 items, len 3 over the 32-item core", "len<=3 over 59 items, len 4 over the 32-item core"), "edit_kinds": ["delete","duplicate","swap-adjacent","replace-by-alphabet-item"], "replacement_alphabet": tier.pick(LEX_SMALL.len(), LEX.len()),
-        "json_edits": "every node × {delete, null, constants, duplicate element, other id, fresh id, swapped enum tag}", "families": FAMILIES, "family_sizes": ns, "stack_bytes": 8 << 20, "wall_cap_s": WALL_CAP_S, "dialects": 12}));
+        "text_payloads": "36 text-bearing positions × ASCII prefixes of every length 0..=13 (three prefix texts) × multi-byte characters of 2, 3 and 4 bytes × suffixes", "number_payloads": "38 numeric positions × boundary values (all pairs for two-slot positions)", "json_edits": "every node × {delete, null, constants, duplicate element, other id, fresh id, swapped enum tag}", "families": FAMILIES, "family_sizes": ns, "stack_bytes": 8 << 20, "wall_cap_s": WALL_CAP_S, "dialects": 12}));
     run.set("rule", json!("case = one input driven through every public entry point (tokens, pl, fmt, json, rq, sql for 12 dialects, one-shot compile); a panic, a dead worker, an empty error list, a call over the wall cap or allocation growth above 2^3.5 per doubling is a violation; identity of a finding = panic file + message head (file:line for generic unwrap messages) / family name"));
     run.assume("growth ('small polynomial') is judged by a deterministic allocation meter on parametric families, not by wall time");
     run.assume("depth families run on a stated 8 MiB stack");
